@@ -183,7 +183,15 @@ func (p *Program) Deviations(f *File, d *Def, k int) []*Val {
 			if k >= 2 {
 				for j := i + 1; j < len(d.Fields); j++ {
 					for _, y := range alts[j] {
-						out = append(out, set(v1, j, y))
+						v2 := set(v1, j, y)
+						out = append(out, v2)
+						if k >= 3 {
+							for l := j + 1; l < len(d.Fields); l++ {
+								for _, z := range alts[l] {
+									out = append(out, set(v2, l, z))
+								}
+							}
+						}
 					}
 				}
 			}
